@@ -141,6 +141,10 @@ fn render(c: &Case) -> String {
         match d.kind {
             Kind::CBuffer => s.push_str(&format!("{}cbuffer {}{} {{ float4 m{}; }}\n", prefix, name, suffix, i)),
             Kind::StaticSampler => s.push_str(&format!("{}SamplerState {}{} = StaticSampler {{ Filter = MIN_MAG_MIP_LINEAR; }};\n", prefix, name, suffix)),
+            // the array comes from a typedef of the array type, or the element type comes from a typedef (the front end
+            // rejects a register() suffix on a declaration through an array typedef: those keep the plain spelling)
+            k if !arr.is_empty() && d.syntax / 4 == 1 && suffix.is_empty() && k != Kind::NonResource => s.push_str(&format!("typedef {} TA{}{};\n{}TA{} {};\n", k.type_text(), i, arr, prefix, i, name)),
+            k if d.syntax / 4 == 2 && k != Kind::NonResource => s.push_str(&format!("typedef {} TE{};\n{}TE{} {}{}{};\n", k.type_text(), i, prefix, i, name, arr, suffix)),
             k => s.push_str(&format!("{}{} {}{}{};\n", prefix, k.type_text(), name, arr, suffix)),
         }
     }
@@ -366,7 +370,7 @@ fn decl_strategy() -> impl Strategy<Value = Decl> {
         any::<u16>(),
         prop_oneof![3 => Just(None), 1 => Just(Some(1u32)), 2 => Just(Some(2u32)), 2 => Just(Some(3u32))],
         prop_oneof![3 => Just(None), 1 => Just(Some(0u32)), 1 => Just(Some(1u32)), 1 => Just(Some(2u32))],
-        0u8..4,
+        0u8..12,
     )
         .prop_map(|(k, len, group, syntax)| Decl { kind: *pick(&KINDS, k), len, group, syntax })
 }
